@@ -7,6 +7,8 @@ import H263V.Model.Yuv
 import H263V.Lemmas.DeblockImg
 import H263V.Lemmas.YuvImg
 import H263V.Thm.C16
+import H263V.Lemmas.PlaneInv
+import H263V.Model.System
 namespace H263V.Thm.C13
 open H263V H263V.Gather
 
@@ -48,5 +50,59 @@ theorem postprocess_ok (p : DecPic) (w h q : Nat) (hs : Sized p w h) (hw : 1 ≤
     (by rw [hs.cr, hs.spr]; exact Nat.mul_mod_right _ _) hr hst
   obtain ⟨rgba, e4, s4⟩ := Lemmas.YuvImg.yuv_ok y2 cb2 cr2 w h hw hh (by rw [s1, hs.luma]) (by rw [s2, hs.cb]) (by rw [s3, hs.cr]) b1 b2 b3
   exact ⟨y2, cb2, cr2, rgba, e1, e2, e3, e4, s4⟩
+
+/-- Every successfully decoded picture, after any history of decode calls and clean-ups on a fresh decoder, has both
+dimensions at least one and exposes planes of exactly the sizes the two post-processing stages require, holding bytes:
+the motion-compensation step and the three inverse transforms write in place and never change a plane's length. -/
+theorem decoded_picture_sized (o : DecOpts) (ops : List System.Op) (c0 : Cur) :
+    let i := (System.run ⟨State.State.new o, c0⟩ ops).1
+    ∀ p, i.st.getLast = some p → ∃ w h, 1 ≤ w ∧ 1 ≤ h ∧ Sized p w h := by
+  intro i p hp
+  -- invariant over the history
+  have hinv : ∀ (ops : List System.Op) (j : System.Inst), Lemmas.PlaneInv.StoreOK j.st →
+      Lemmas.PlaneInv.StoreOK (System.run j ops).1.st := by
+    intro ops
+    induction ops with
+    | nil => intro j hj; exact hj
+    | cons op rest ih =>
+      intro j hj
+      simp only [System.run]
+      apply ih
+      cases op with
+      | feed bits => exact hj
+      | cleanup =>
+        simp only [System.step]
+        intro k q hk
+        exact hj k q (Lemmas.PlaneInv.cleanup_lookup _ k q hk)
+      | decode =>
+        simp only [System.step]
+        cases hd : State.decodeNextPicture j.st j.cur with
+        | ok r => exact (Lemmas.PlaneInv.decode_storeOK j.st hj j.cur r.1 r.2 (by rw [hd])).1
+        | err e => exact hj
+        | panic m => exact hj
+        | fuel => exact hj
+  have hst := hinv ops ⟨State.State.new o, c0⟩ (Lemmas.PlaneInv.new_storeOK o)
+  have : Lemmas.PlaneInv.PicOK p := by
+    unfold State.State.getLast at hp
+    cases hl : i.st.last with
+    | none => rw [hl] at hp; simp at hp
+    | some k => rw [hl] at hp; simp only [Option.bind_some] at hp; exact hst k p hp
+  obtain ⟨w, h, hw, hh, hd, ⟨l1, l2⟩, ⟨b1, b2⟩, ⟨r1, r2⟩, hs⟩ := this
+  exact ⟨w, h, hw, hh, ⟨hd, l1, b1, r1, hs, l2, b2, r2⟩⟩
+
+/-- The property in one statement: whatever was decoded before, the picture reported by `get_last_picture` can be deblocked
+plane by plane with the strength tabulated for any quantizer 1..31 and converted to RGBA without panic, giving exactly
+width x height pixels. -/
+theorem every_decoded_picture_postprocesses (o : DecOpts) (ops : List System.Op) (c0 : Cur) (q : Nat) (hq : 1 ≤ q ∧ q ≤ 31) :
+    let i := (System.run ⟨State.State.new o, c0⟩ ops).1
+    ∀ p, i.st.getLast = some p → ∃ w h y2 cb2 cr2 rgba, p.fmt.dims = some (w, h) ∧
+      Deblock.deblock p.luma w (Gen.QUANT_TO_STRENGTH[q]!) = .ok y2 ∧
+      Deblock.deblock p.cb p.chromaSpr (Gen.QUANT_TO_STRENGTH[q]!) = .ok cb2 ∧
+      Deblock.deblock p.cr p.chromaSpr (Gen.QUANT_TO_STRENGTH[q]!) = .ok cr2 ∧
+      Yuv.yuv420ToRgba y2 cb2 cr2 w = .ok rgba ∧ rgba.size = 4 * (w * h) := by
+  intro i p hp
+  obtain ⟨w, h, hw, hh, hs⟩ := decoded_picture_sized o ops c0 p hp
+  obtain ⟨y2, cb2, cr2, rgba, e1, e2, e3, e4, e5⟩ := postprocess_ok p w h q hs hw hh hq
+  exact ⟨w, h, y2, cb2, cr2, rgba, hs.dims, e1, e2, e3, e4, e5⟩
 
 end H263V.Thm.C13
